@@ -19,7 +19,7 @@ META = {
     ),
     "floors": {
         "quick": {"evaluations": 10000, "mon.events": 10000, "mon.plain_cost": 2000, "mon.ordered_cost": 3000, "mon.unordered_cost": 3000, "mon.cli_min_cost": 6},
-        "thorough": {"evaluations": 300000, "mon.events": 300000, "mon.plain_cost": 100000, "mon.ordered_cost": 60000, "mon.unordered_cost": 60000, "mon.cli_min_cost": 60},
+        "thorough": {"evaluations": 300000, "mon.events": 300000, "mon.plain_cost": 60000, "mon.ordered_cost": 60000, "mon.unordered_cost": 60000, "mon.cli_min_cost": 60},
     },
     "exhaustive": {"quick": True, "thorough": True},
     "space": {
